@@ -16,7 +16,7 @@ RATE_TABLE = [
 
 
 def gen(rng, *, ia: bool = True, time: bool = True, conditionals: bool = True, computed_dynamic: bool = True,  # noqa: ANN001
-        untouched: bool = True, max_vars: int = 5, untranslatable: bool = False, module_state: float = 0.0) -> dict:
+        untouched: bool = True, max_vars: int = 5, untranslatable: bool = False, module_state: float = 0.0, magnitudes: float = 0.0) -> dict:
     L = fl.ref
     nvar = rng.randint(1, max_vars)
     variables = [f"x{i}" for i in range(nvar)]
@@ -109,13 +109,24 @@ def gen(rng, *, ia: bool = True, time: bool = True, conditionals: bool = True, c
         feats.add("untouched_variable")
     if nvar == 1:
         feats.add("single_variable")
+    state_scale = 1.0
+    if magnitudes and rng.random() < magnitudes:
+        # a model in other units: parameter values and concentrations spread over many orders of magnitude
+        for c in comps:
+            if c["kind"] == "parameter" and "value" in c and c["name"] != "nh" and rng.random() < 0.5:
+                c["value"] = c["value"] * rng.choice([1e-13, 3.7e-7, 4.5678912e-7, 1e-4, 1e3, 1e6])
+        state_scale = rng.choice([1e-6, 1.0, 1e3, 1e6])
+        for c in comps:
+            if c["kind"] == "variable" and "value" in c:
+                c["value"] = c["value"] * state_scale
+        feats.add("values_over_many_orders_of_magnitude")
     spec = {"components": comps}
     spec = rm.shuffled(spec, rng)
     # was a dependent derived declared before what it uses?
     order = [c["name"] for c in spec["components"]]
     if "d1" in order and order.index("d1") < order.index("d0"):
         feats.add("dependent_declared_first")
-    return {"spec": spec, "features": sorted(feats)}
+    return {"spec": spec, "features": sorted(feats), "state_scale": state_scale}
 
 
 import contextlib
